@@ -25,6 +25,14 @@ CHECKS = [
   "note": STD_NOTE + " Simpson's rule is not modelled (linearity monitored only). Basis-expansion Gram matrices are monitored, not modelled."},
 ]
 
+import glob, json, os
+for _f in sorted(glob.glob(os.path.join(os.path.dirname(__file__), "manifest_entries", "C*.json"))):
+    _e = json.load(open(_f))
+    if _e["id"] not in {c["id"] for c in CHECKS} and os.path.exists(f"/verif/harness/{_e['id'].lower()}.py"):
+        _e["note"] = STD_NOTE + " " + _e.get("note", "")
+        CHECKS.append(_e)
+CHECKS.sort(key=lambda c: c["id"])
+
 ALL = ["C%02d" % i for i in range(1, 21)]
 _claimed = {c["id"] for c in CHECKS}
 NOT_APPLICABLE = [{"property_id": p, "reason": "not yet built in this round (planned, see DESIGN.md §3/§5); no check is claimed"}
